@@ -173,7 +173,7 @@ pub fn property() -> Property {
             "trusted base: ndarray, the harness' naive Cholesky / Jacobi / matmul (vengine::num)".into(),
         ],
         subs: vec![
-            prop_sub("fit_predict", 24000, 400000, case_strategy, oracle::check).chunks(16).require(&["fit_ok", "has_query_ge_40sd"]),
+            prop_sub("fit_predict", 24000, 300000, case_strategy, oracle::check).chunks(16).require(&["fit_ok", "has_query_ge_40sd"]),
             enum_sub("far_grid", far_grid, oracle::check).chunks(8),
         ],
     }
